@@ -22,6 +22,9 @@
 //Access to time stamp counter
 //lfence inserted to serialize instructions
 static inline uint64_t myth_get_rdtsc() {
+#if defined(MYTH_VERIF)
+  { unsigned long long vt; if (myth_verif_rdtsc(&vt)) return vt; }
+#endif
 #if MYTH_ARCH == MYTH_ARCH_i386 || MYTH_ARCH == MYTH_ARCH_amd64 || MYTH_ARCH == MYTH_ARCH_amd64_knc
   uint32_t hi,lo;
 #if MYTH_ARCH == MYTH_ARCH_amd64_knc
